@@ -91,9 +91,16 @@ impl Compound for C {
 /// a compound that stores a value under its own key while it is being loaded (re-entrant insert):
 /// the value inserted first must win, as for any get_or_insert on a present key
 pub struct R(pub i64, pub Tracked);
+thread_local! {
+    /// address of the handle that the nested `get_or_insert` of `R::load` returned (0: none): the handle
+    /// the outer `load` returns for the same (id, type) must be the very same one (C01)
+    pub static NESTED_HANDLE: std::cell::Cell<usize> = const { std::cell::Cell::new(0) };
+}
 impl Compound for R {
     fn load(cache: AnyCache, id: &SharedString) -> Result<Self, BoxedError> {
-        let first = cache.get_or_insert::<R>(id, R(500, Tracked::new())).read().0;
+        let h = cache.get_or_insert::<R>(id, R(500, Tracked::new()));
+        NESTED_HANDLE.with(|n| n.set(h as *const _ as usize));
+        let first = h.read().0;
         Ok(R(first + 1, Tracked::new()))
     }
 }
@@ -286,6 +293,11 @@ fn err_s(e: &Error) -> String {
 fn h_s<T: Val>(id: &str, r: Result<&Handle<T>, Error>) -> String {
     match r {
         Ok(h) => {
+            let nested = NESTED_HANDLE.with(|n| n.replace(0));
+            if nested != 0 && nested != h as *const _ as usize {
+                // never dereference either of them: one of the two is dangling or a second entry
+                return "TWO-HANDLES-FOR-ONE-KEY".to_string();
+            }
             if h.id().as_str() != id {
                 return format!("WRONG-HANDLE-ID({})", h.id());
             }
@@ -637,6 +649,7 @@ fn run_on<F: Fe>(mut fe: F, any: bool, w: &WorldSpec, ops: &[Op]) -> Outcome {
     for (i, op) in ops.iter().enumerate() {
         // a panic out of the cache (e.g. "wrong handle type") is an observation, not a crash of the checker
         RP_ARMED.store(matches!(op, Op::Load(Ty::RP, _)), std::sync::atomic::Ordering::SeqCst);
+        NESTED_HANDLE.with(|n| n.set(0));
         let real = match std::panic::catch_unwind(std::panic::AssertUnwindSafe(|| apply(&mut fe, any, op))) {
             Ok(r) => r,
             Err(_) if matches!(op, Op::Load(Ty::RP, _)) => "PANIC".to_string(),
@@ -646,7 +659,8 @@ fn run_on<F: Fe>(mut fe: F, any: bool, w: &WorldSpec, ops: &[Op]) -> Outcome {
         let exp = model.apply(w, op);
         obs.push(real.clone());
         if real != exp && violation.is_none() {
-            violation = Some((format!("return:{}", op_class(op)), format!("step {i} `{op:?}` returned {real}, the reference map says {exp}")));
+            let key = if real == "TWO-HANDLES-FOR-ONE-KEY" { format!("two-handles:{}", op_class(op)) } else { format!("return:{}", op_class(op)) };
+            violation = Some((key, format!("step {i} `{op:?}` returned {real}, the reference map says {exp}")));
         }
         let mx = match std::panic::catch_unwind(std::panic::AssertUnwindSafe(|| matrix(&fe, any))) {
             Ok(m) => m,
